@@ -12,12 +12,16 @@
    A step that can only be explained by a named deviation (Dev) is accepted and reported as
    <<"DEVUSED", trace, event, choice>>; the harness turns that into a finding.
 
-   IOEnv.SVS_RELAX = <field> drops the comparison of one projection field; the harness uses it
-   only to name the field in the signature of a trace that was rejected.                     *)
+   IOEnv.SVS_RELAX = <field> drops the comparison of one projection field at the last event of
+   each trace; the harness uses it only to name the field in the signature of a rejected trace
+   (it re-validates the rejected prefix once per field).                                     *)
 EXTENDS Svs, Json, IOUtils, TLCExt
 
-Traces == ndJsonDeserialize(IOEnv.TRACE_FILE)
-Relax == IF "SVS_RELAX" \in DOMAIN IOEnv THEN IOEnv.SVS_RELAX ELSE "none"
+\* the file is read once (TLC would re-evaluate a plain definition at every use)
+TraceReg == 8999
+ASSUME TLCSet(TraceReg, ndJsonDeserialize(IOEnv.TRACE_FILE))
+Traces == TLCGet(TraceReg)
+RelaxField == IF "SVS_RELAX" \in DOMAIN IOEnv THEN IOEnv.SVS_RELAX ELSE "none"
 VARIABLES tid, l
 tvars == <<vars, tid, l>>
 
@@ -29,6 +33,8 @@ TInit == /\ tid \in 1..Len(Traces)
          /\ InitWith(Traces[tid].cfg.init, Traces[tid].cfg.t0)
          /\ TLCSet(tid, 1)
 
+\* the relaxation applies to the last event of a (truncated) trace only
+Relax == IF l = Len(Tr) THEN RelaxField ELSE "none"
 Ev(a) == l <= Len(Tr) /\ Tr[l].a = a /\ l' = l + 1 /\ UNCHANGED tid
 Same(f, x, y) == Relax = f \/ x = y
 PostOk == LET p == Tr[l].post IN
@@ -38,15 +44,18 @@ PostOk == LET p == Tr[l].post IN
             /\ Same("state", state', p.state)
             /\ Same("timer", timer', p.timer)
             /\ Same("seq", selfSeq', p.seq)
+\* name the observed open choices before Svs enumerates them
+Hint == hint' = [t |-> (IF Relax = "timer" THEN -1 ELSE Tr[l].post.timer),
+                 s |-> (IF Relax = "state" THEN "any" ELSE Tr[l].post.state)]
 Report(c) == (c \in {"devNoSeq", "devAgg"}) => PrintT(<<"DEVUSED", tid, l, c>>)
 
-TRecv == /\ Ev("RecvSV")
+TRecv == /\ Ev("RecvSV") /\ Hint
          /\ \E c \in {"norm", "reject", "devNoSeq"} : RecvSV(Tr[l].p, 0, c) /\ PostOk /\ Report(c)
-TFire == /\ Ev("TimerFire")
+TFire == /\ Ev("TimerFire") /\ Hint
          /\ \E c \in {"norm", "skip", "devAgg"} : TimerFire(0, c) /\ PostOk /\ Report(c)
-TPub == /\ Ev("Publish")
+TPub == /\ Ev("Publish") /\ Hint
         /\ \E m \in 1..Tr[l].n : Publish(Tr[l].n, 0, m) /\ PostOk
-TTick == /\ Ev("Tick")
+TTick == /\ Ev("Tick") /\ Hint
          /\ Tick(Tr[l].d) /\ PostOk
 
 TNext == TRecv \/ TFire \/ TPub \/ TTick
